@@ -53,6 +53,13 @@ def moduli_answer(gex, mn, pref, mx):
             up = [s for s in inrange if s >= pref]
             return up[0] if up else inrange[-1]
         return 2048
+    if style == 'exact':
+        # only a group of exactly the preferred size (inside the range) is handed out
+        return pref if pref in inrange else None
+    if style == 'roundup-max':
+        # the smallest size between preferred and max, else refuse
+        up = [x for x in sizes if pref <= x <= mx]
+        return up[0] if up else None
     if style == 'largest':
         return inrange[-1] if inrange else None
     raise ValueError(style)
